@@ -5,8 +5,9 @@ LEVEL = "proof"
 TRUSTED_BASE = [
     "Coq 8.16.1 kernel incl. vm_compute (used only for the _refuted witness and the Examples); no native_compute",
     "axioms: none (every T_C17_* theorem prints 'Closed under the global context')",
-    "hand-written Gallina model coq/ArchModel.v part 2 of validators.h, key_value_proxy.h (VisitArgs), serialization_context.h (AddValidationError / OnFinishSerialization), LoadObject; field values are loaded by the container model of part 1; tied to /repo by this correspondence run on RapidJSON, MsgPack and CSV archives",
-    "GetPath() of the scopes is modelled as parent path + '/' + key, array elements numbered from 1 (RapidJSON, MsgPack) or 0 (CSV row index)",
+    "hand-written Gallina model coq/ArchModel.v part 2 of validators.h, key_value_proxy.h (VisitArgs), serialization_context.h (AddValidationError / OnFinishSerialization), LoadObject; field values are loaded by the container model of part 1; tied to /repo by this correspondence run on RapidJSON, MsgPack, CSV and pugixml (XML) archives",
+    "GetPath() of the scopes is modelled as parent path + '/' + key, array elements numbered from 1 (RapidJSON, MsgPack) or 0 (CSV row index); XML (xml_arch): pugi::xml_node::path(), i.e. '/' + root element name, then element names WITHOUT indices - items of one array share their path (T_C17_xml_*)",
+    "XML documents are restricted to what the archive can carry and the model decides: member keys that are element names, canonical numeric text (scalar roots included since finding A01 was repaired by /repo b0f5582); element names of non-members follow the writer's convention value / array / object (xml_names)",
     "extraction: ExtrOcamlBasic only; N/Z/positive/nat stay extracted inductives",
     "trusted glue: coq/ArchCodec.v (class catalogue, value printing), ml/glue.ml, ml/arch_driver.ml, harness/drv_arch.cpp (C++ twin of the class catalogue, document encoders), harness/common.h, props/arch_common.py",
     "Email and PhoneNumber are mirrored for the correspondence and opaque in the theorems (the property fixes no semantics for them)",
@@ -52,23 +53,15 @@ def run(ctx, vlib):
                 failing.append(rec)
             elif len(diffs) < 20:
                 diffs.append(rec)
-    # MsgPack through the stream reader must report exactly what the memory load reports (paths come from the scopes'
-    # current keys, which in stream mode are views into the reader's buffer: finding F54, repaired by a981807)
-    mp_idx = [i for i, line in enumerate(cases) if line.split(" ")[1] == "mp"]
-    if mp_idx:
-        sc = [cases[i].replace(" mp ", " mps ", 1) for i in mp_idx]
-        so = vlib.run_driver(impl, sc)
-        for i, line, o in zip(mp_idx, sc, so):
-            if o != oi[i] and len(failing) < 20:
-                failing.append(dict(driver="arch", case=line, implementation=o, model=om[i], judge="FAIL",
-                                    why="loading the same MsgPack document from a stream reports differently than loading it from memory (%s)" % oi[i][:200]))
+    # MsgPack, JSON and XML through std::istream must report exactly what the memory load reports
+    n_stream = A.stream_vs_memory(vlib, impl, cases, oi, om, failing)
     known_lines, known_cases = A.known_findings("C17", vlib, impl)
     diffs += A.STALE_KNOWN
     failing = [f for f in failing if f["case"] not in known_cases]
     samples = [dict(case=cases[i], implementation=oi[i], model=om[i]) for i in range(0, min(len(cases), 4))]
-    return dict(evaluations=len(cases) + len(mp_idx), distinct_nontrivial=nt, samples=samples, classes=classes, failing=failing,
+    return dict(evaluations=len(cases) + n_stream, distinct_nontrivial=nt, samples=samples, classes=classes, failing=failing,
                 diffs=diffs, known_lines=known_lines, exhaustive=False,
-                rule="10 validated classes (flat, several failing rules per field, Email/PhoneNumber/lambda, nested, inside vector, inside map, same key twice, five-field for the caps, root array incl. CSV, nested-in-array-in-class) x random documents putting every field in {valid, at / just inside / just outside each Range, MinSize, MaxSize bound, absent, null, wrong type} x maxValidationErrors in {0,1,2,3,100} x {JSON, MsgPack, CSV for the root array} x policies; plus the one-field-at-a-time bound neighbourhoods of the two flat classes; non-trivial = distinct case whose outcome is a ValidationException or another exception",
+                rule="10 validated classes (flat, several failing rules per field, Email/PhoneNumber/lambda, nested, inside vector, inside map, same key twice, five-field for the caps, root array incl. CSV, nested-in-array-in-class) x random documents putting every field in {valid, at / just inside / just outside each Range, MinSize, MaxSize bound, absent, null, wrong type} x maxValidationErrors in {0,1,2,3,100} x {JSON, MsgPack, XML, CSV for the root array} x policies; plus the one-field-at-a-time bound neighbourhoods of the two flat classes; every MsgPack / JSON / XML case a second time through std::istream (implementation only, must equal the memory load); non-trivial = distinct case whose outcome is a ValidationException or another exception",
                 broken="correspondence arch model (ArchModel.v part 2) vs validators.h/key_value_proxy.h/serialization_context.h (drv_arch validate)")
 
 
